@@ -67,7 +67,7 @@ def nested_parent_users(tree):
         if k == "list":
             for c in t["ch"]:
                 walk(c, depth + 1, under_eval)
-        elif k == "everyn":
+        elif k in ("everyn", "event"):
             walk(t["c"], 0, False)
         elif k == "eval":
             walk(t["ob"], 0, True)
@@ -83,7 +83,7 @@ ALGOS = ["PPO", "A2C", "SAC", "DQN", "TD3"]
 def gen_tree(rng, depth, under_best=False, top=False, evp=False):
     """evp: the node's `parent` attribute is an EvalCallback (directly or through CallbackLists), so
     StopTrainingOnRewardThreshold / StopTrainingOnNoModelImprovement may be placed here"""
-    kinds = ["rec", "rec", "list", "everyn", "eval", "ckpt", "maxep", "conv"]
+    kinds = ["rec", "rec", "list", "everyn", "everyn", "event", "eval", "ckpt", "maxep", "conv"]
     if depth <= 0:
         kinds = ["rec", "rec", "ckpt", "maxep", "conv"]
     if evp:
@@ -97,7 +97,11 @@ def gen_tree(rng, depth, under_best=False, top=False, evp=False):
         n = rng.choice([0, 1, 2, 2, 3, 4])
         return {"t": "list", "ch": [gen_tree(rng, depth - 1, under_best, evp=evp) for _ in range(n)]}
     if k == "everyn":
-        return {"t": "everyn", "n": rng.choice([1, 2, 3, 4, 5, 7, 9, rng.randint(1, 12)]), "c": gen_tree(rng, depth - 1, under_best)}
+        # callback=None is accepted by EventCallback: the trigger then just returns True
+        return {"t": "everyn", "n": rng.choice([1, 2, 3, 4, 5, 7, 9, rng.randint(1, 12)]), "c": None if rng.random() < 0.15 else gen_tree(rng, depth - 1, under_best)}
+    if k == "event":
+        # a plain EventCallback: forwards training-start and locals to its child, never steps it, always continues
+        return {"t": "event", "c": None if rng.random() < 0.2 else gen_tree(rng, depth - 1, under_best)}
     if k == "eval":
         return {"t": "eval", "freq": rng.choice([0, 1, 2, 2, 3, 5]), "evals": [rng.randint(-6, 6) for _ in range(rng.randint(0, 12))],
                 "n_eval": rng.choice([1, 2, 3]), "raw_env": rng.random() < 0.3, "log": rng.random() < 0.4, "best": rng.random() < 0.4, "verbose": rng.choice([0, 0, 1]),
@@ -158,6 +162,8 @@ def coq_tree(t, ne):
         return f"(clist {coq_list([coq_tree(c, ne) for c in t['ch']])})"
     if k == "everyn":
         return f"(everyn {coq_Z(t['n'])} {coq_tree(t['c'], ne)})"
+    if k == "event":
+        return f"(everyn {coq_Z(10**9)} {coq_tree(t['c'], ne)})"       # never triggers
     if k == "eval":
         return f"(eval_ {coq_Z(t['freq'])} {coq_list(t['evals_used'], coq_Z)} {coq_tree(t['ob'], ne)} {coq_tree(t['af'], ne)})"
     if k == "ckpt":
@@ -204,13 +210,20 @@ def run_impl(case):
             self.count = 0
             self.steps = []  # (count, ndones)
             self.last = None
+            self.last_actions = None
+            self.roll_pos = 0        # env steps since the last rollout-start event at the root
 
         def reset(self):
             return self.venv.reset()
 
+        def step_async(self, actions):
+            self.last_actions = np.array(actions, copy=True)
+            self.venv.step_async(actions)
+
         def step_wait(self):
             obs, rews, dones, infos = self.venv.step_wait()
             self.count += 1
+            self.roll_pos += 1
             for inf in infos:
                 inf["vstep"] = self.count
             self.steps.append((self.count, int(np.sum(dones))))
@@ -246,6 +259,14 @@ def run_impl(case):
             self.ret = ret
             self.log = []
             self.locals_ok = True
+            self.has_locals = True           # False below callback_on_new_best (never handed training-start / locals by EvalCallback)
+            self.delivered = None            # env step of the last update_locals() call delivered to THIS object
+            self.loc_problems = []
+
+        def update_locals(self, locals_):
+            infos = locals_.get("infos")
+            self.delivered = int(infos[0]["vstep"]) if infos else -1
+            super().update_locals(locals_)
 
         def _entry(self, kind):
             infos = self.locals.get("infos")
@@ -261,6 +282,20 @@ def run_impl(case):
 
         def _on_step(self):
             stamp = self._entry(2)
+            if self.has_locals and len(self.loc_problems) < 3:
+                c_ = venv.count
+                if self.delivered != c_:
+                    self.loc_problems.append(["oracle-locals-not-forwarded", f"step event during env step {c_}: the last update_locals() delivered to this callback was for env step {self.delivered}"])
+                if stamp != c_:
+                    self.loc_problems.append(["oracle-locals-not-of-this-step", f"step event during env step {c_}: self.locals describe env step {stamp}"])
+                else:
+                    lo = self.locals
+                    sent = lo.get("clipped_actions") if "clipped_actions" in lo else lo.get("actions")
+                    if sent is None or not np.array_equal(np.asarray(sent).reshape(np.asarray(venv.last_actions).shape), venv.last_actions):
+                        self.loc_problems.append(["oracle-locals-not-of-this-step", f"env step {c_}: the actions in self.locals are not the ones the env received"])
+                    pos = lo.get("n_steps") + 1 if "n_steps" in lo else lo.get("num_collected_steps")
+                    if pos != venv.roll_pos:
+                        self.loc_problems.append(["oracle-locals-not-of-this-step", f"env step {c_}: step counter in self.locals says {pos}, it is step {venv.roll_pos} of the rollout"])
             if stamp >= 0 and stamp == venv.count:
                 o, r, d = venv.last
                 lo = self.locals
@@ -277,7 +312,7 @@ def run_impl(case):
         def _on_training_end(self):
             self._entry(4)
 
-    def build(t):
+    def build(t, nolocals=False):
         if t is None:
             return None
         k = t["t"]
@@ -285,10 +320,11 @@ def run_impl(case):
         nodes.append([t, None])
         if k == "rec":
             o = Recorder(t["stop"], t.get("ret", "bool"))
+            o.has_locals = not nolocals
         elif k == "list":
-            o = cbm.CallbackList([build(c) for c in t["ch"]])
+            o = cbm.CallbackList([build(c, nolocals) for c in t["ch"]])
         elif k == "everyn":
-            o = cbm.EveryNTimesteps(n_steps=t["n"], callback=build(t["c"]))
+            o = cbm.EveryNTimesteps(n_steps=t["n"], callback=build(t["c"], nolocals))
             fired_log[idx] = []
             orig = o._on_event
 
@@ -297,6 +333,8 @@ def run_impl(case):
                 return orig()
 
             o._on_event = on_event
+        elif k == "event":
+            o = cbm.EventCallback(build(t["c"], nolocals))
         elif k == "eval":
             from stable_baselines3.common.monitor import Monitor
 
@@ -318,8 +356,8 @@ def run_impl(case):
                 eval_env = VecNormalize(Pass(DummyVecEnv([lambda: raw])), training=False, norm_obs=True, norm_reward=False, clip_obs=1e9)
             else:
                 eval_env = DummyVecEnv([lambda: raw])
-            ob = build(t["ob"])
-            af = build(t["af"])
+            ob = build(t["ob"], True)
+            af = build(t["af"], nolocals)
             o = cbm.EvalCallback(eval_env, callback_on_new_best=ob, callback_after_eval=af, n_eval_episodes=t.get("n_eval", 2), eval_freq=t["freq"],
                                  verbose=t.get("verbose", 0), warn=False,
                                  log_path=os.path.join(tmp, f"evallog{idx}") if t.get("log") else None,
@@ -388,6 +426,7 @@ def run_impl(case):
             root_trace[-1].append([0, int(model.num_timesteps), 0, True]); envcount[-1].append(venv.count); return o_ts(l, g)
 
         def rs():
+            venv.roll_pos = 0
             root_trace[-1].append([1, 0, 0, True]); envcount[-1].append(venv.count); return o_rs()
 
         def ul(l):
@@ -524,6 +563,8 @@ def run_impl(case):
             code = 1
         elif k == "everyn":
             code, ent = 2, [[5, 0, int(o.last_time_trigger), 0]] + [[5, 0, nt, 0] for nt in fired_log[i]]
+        elif k == "event":
+            code, ent = 2, [[5, 0, 0, 0]]
         elif k == "eval":
             code = 3
             b = o.best_mean_reward
@@ -548,7 +589,8 @@ def run_impl(case):
         obs_nodes.append([code, int(o.n_calls), int(o.num_timesteps), ent])
     return {"error": err, "root_trace": root_trace, "envcount": envcount, "nodes": obs_nodes, "calls": call_info,
             "eval_means": {str(i): eval_log[i]["means"] for i in eval_log}, "files": files,
-            "saves": save_log, "stop_requests": stop_requests, "eval_files": eval_files, "eval_sync": {str(i): eval_log[i].get("sync", []) for i in eval_log},
+            "saves": save_log, "stop_requests": stop_requests,
+            "locals_problems": [[i] + pr for i, (t, o) in enumerate(nodes) if t["t"] == "rec" for pr in o.loc_problems], "eval_files": eval_files, "eval_sync": {str(i): eval_log[i].get("sync", []) for i in eval_log},
             "made_roots": [[type(r).__name__, int(r.n_calls), int(r.num_timesteps)] for r in made_roots], "aux_saves": aux_saves, "eval_n": {str(i): eval_log[i]["n_eval"] for i in eval_log}, "eval_env": {str(i): eval_log[i].get("env", []) for i in eval_log},
             "off_policy": algo not in ("PPO", "A2C"), "locals_ok": [bool(o.locals_ok) for t, o in nodes if t["t"] == "rec"],
             "final": [int(model.num_timesteps), int(venv.count)]}
@@ -593,7 +635,7 @@ def list_reachable(tree):
         if k == "list":
             for c in t["ch"]:
                 walk(c, reach)
-        elif k == "everyn":
+        elif k in ("everyn", "event"):
             walk(t["c"], False)
         elif k == "eval":
             walk(t["ob"], False)
@@ -614,7 +656,7 @@ def preorder(tree):
         if k == "list":
             for c in t["ch"]:
                 walk(c)
-        elif k == "everyn":
+        elif k in ("everyn", "event"):
             walk(t["c"])
         elif k == "eval":
             walk(t["ob"])
@@ -796,6 +838,15 @@ def oracle(case, impl):
         for j, e in enumerate(tr):
             if e[0] == 9 and j + 1 < len(tr) and tr[j + 1][0] == 2:
                 ret_at[e[1]] = tr[j + 1][3]
+    for i, sg, msg in impl.get("locals_problems", []):
+        probs.append((sg, f"recorder node {i}: " + msg))
+    if not any(t["t"] in ("maxep", "thresh", "noimp") for t in specs):
+        # only recorders / functions can ask to stop in this tree: a falsy root answer needs such a request at that very env step
+        asked = set(impl.get("stop_requests", []))
+        for ec, ret in sorted(ret_at.items()):
+            if not ret and ec not in asked:
+                probs.append(("oracle-stopped-without-request", f"the root step event of env step {ec} returned a falsy value although no callback in the tree asked to stop"))
+                break
     for ec in impl.get("stop_requests", []):
         if ret_at.get(ec, False):
             probs.append(("oracle-stop-request-ignored", f"a callback answered with a falsy value (False / np.bool_(False) / th.tensor(False)) at env step {ec}, "
